@@ -36,6 +36,22 @@ func init() {
 // slot take-over) that the two-thread DFS scenarios do not reach.
 func c01Seq(tier string) []SeqJob {
 	var out []SeqJob
+	mkT := func(name string, keyType string, depth int, secs float64) {
+		keys := []int{1, 2}
+		alpha := []Op{{K: "set", Key: 1, Cost: 1}, {K: "set", Key: 2, Cost: 1}, {K: "del", Key: 1}, {K: "setttl", Key: 2, Cost: 1, TTL: 1000}, {K: "drain"}, {K: "advance", N: 2000}}
+		spec := &SeqSpec{Cfg: Cfg{NumCounters: 16, MaxCost: 3, BufferItems: 2, SetBuf: 3, KeyType: keyType, TTLTick: 2, BucketSecs: 1}, MaxDepth: depth,
+			Alphabet: func(r *SeqRun) []Op { return alpha },
+			Oracle: func(r *SeqRun) []Viol {
+				return append(provenance(r.Events, "C01"), servedAfterExit(r.Events, "C01")...)
+			},
+			Probe: func(c seqCache, r *SeqRun) {
+				for _, k := range keys {
+					runOp(c, Op{K: "get", Key: k})
+				}
+			},
+		}
+		out = append(out, SeqJob{Name: name, Spec: spec, Seconds: secs})
+	}
 	mk := func(name string, hash string, keys []int, depth int, secs float64) {
 		var alpha []Op
 		for _, k := range keys {
@@ -61,10 +77,17 @@ func c01Seq(tier string) []SeqJob {
 	if tier == "quick" {
 		mk("seq/collide/keys1,2/depth6", "collide", []int{1, 2}, 6, 40)
 		mk("seq/collide/keys1,2,3/depth4", "collide", []int{1, 2, 3}, 4, 40)
+		mkT("seq/long-string-keys-differing-in-the-tail/depth5", "longstring-tail", 5, 40)
+		mkT("seq/long-byte-keys-differing-in-the-tail/depth4", "longbytes-tail", 4, 40)
+		mkT("seq/long-string-keys-differing-in-the-head/depth4", "longstring-head", 4, 40)
 	} else {
 		mk("seq/collide/keys1,2/depth9", "collide", []int{1, 2}, 9, 560)
 		mk("seq/collide/keys1,2,3/depth7", "collide", []int{1, 2, 3}, 7, 560)
 		mk("seq/default-hash/keys1,257/depth8", "", []int{1, 257}, 8, 560)
+		mkT("seq/long-string-keys-differing-in-the-tail/depth8", "longstring-tail", 8, 560)
+		mkT("seq/long-byte-keys-differing-in-the-tail/depth7", "longbytes-tail", 7, 560)
+		mkT("seq/long-string-keys-differing-in-the-head/depth7", "longstring-head", 7, 560)
+		mkT("seq/short-string-keys/depth7", "string", 7, 560)
 	}
 	return out
 }
@@ -188,7 +211,7 @@ func c01Jobs(tier string) []Job {
 		}
 	}
 	// (c) other key types with the default hash
-	for _, kt := range []string{"string", "bytes", "uint64"} {
+	for _, kt := range []string{"string", "bytes", "uint64", "longstring-tail", "longstring-head", "longbytes-tail"} {
 		c := small
 		c.KeyType = kt
 		add("c/"+kt+"/set-get", c, []Op{set(1), {K: "wait"}}, []Op{set(2), get(1)}, []Op{set(1), get(2)}, bound)
